@@ -28,7 +28,8 @@ def run(chk: Check):
         "2e-5 (finite-difference kinds at their default eps=1e-4), all relative to max(1,|E|)",
         "finite-difference kinds: 'converges quadratically' is judged on the ladder eps=0.2..0.025 (halving "
         "shrinks |E(eps)-E_exact| by a factor in [3,5.5] on the two finest steps unless below 1e-7) and the "
-        "Richardson-extrapolated value must equal the exact energy to 1e-6",
+        "Richardson-extrapolated value must equal the exact energy to max(1e-6, 8 x the extrapolation's own last "
+        "correction)",
         "walkers in generic position for the library's algorithm (see C01)"]
     theorems(chk)
     insts = wfcheck.plan(chk, wf.ALL_KINDS, chk.tier, chk.seed + 1, want=("e",), nw=3)
@@ -63,9 +64,15 @@ def run(chk: Check):
                 E = [complex(vals[eps][k]) for eps in EPS_LADDER]
                 # Richardson: eliminate eps^2, eps^4, eps^6 (the residual is a polynomial in eps^2)
                 T = list(E)
+                prev = None
                 for lvl in range(1, len(T)):
+                    prev = T
                     T = [(4 ** lvl * T[j + 1] - T[j]) / (4 ** lvl - 1) for j in range(len(T) - 1)]
                 rich = abs(T[0] - e["e"])
+                # the extrapolation's own error estimate: the last correction it made (difference to the best value of the
+                # previous level).  A constant offset of the code's energy is common to all extrapolants and stays visible;
+                # large eps^8 coefficients of a particular instance no longer raise an alarm (a thorough-tier false alarm)
+                rich_est = abs(T[0] - prev[-1]) if prev is not None else 0.0
                 sc = max(1.0, abs(e["e"]))
                 tid = len(traces) + 1
                 errs = [abs(x - e["e"]) for x in E]
@@ -75,7 +82,7 @@ def run(chk: Check):
                 traces[-1]["errs"] = errs
                 traces[-1]["bound"] = 1.0      # ladder trace: ratio clause only
                 traces.append({"id": tid + 1, "errs": [rich], "scale": sc, "floor": 0.0, "lo": (1, 1), "first": 1,
-                               "bound": 1e-6})
+                               "bound": max(1e-6, 8.0 * rich_est / sc)})
                 tinfo[tid] = (I, k, "ladder", errs)
                 tinfo[tid + 1] = (I, k, "richardson", [rich])
     verdicts = ladder.judge(chk, traces, "fd")
